@@ -2,6 +2,7 @@ package main
 
 import (
 	"fmt"
+	"go/types"
 	"regexp"
 	"strings"
 
@@ -159,34 +160,105 @@ func runC02Fill(c *Ctx) {
 
 func runC11Visit(c *Ctx) {
 	rs := c.P.Func("rtree.(*RTree).RangeSearch")
-	if rs == nil || len(rs.AnonFuncs) == 0 {
-		c.Errorf("anchor RangeSearch closure does not resolve")
+	if rs == nil {
+		c.Errorf("anchor rtree.(*RTree).RangeSearch does not resolve")
 		return
 	}
-	rec := rs.AnonFuncs[0]
+	// the per-node step: RangeSearch's recursive closure, or a self-recursive
+	// function it calls (the same step written as a named function)
+	var rec *ssa.Function
+	if len(rs.AnonFuncs) > 0 {
+		rec = rs.AnonFuncs[0]
+	} else {
+		eachCall(rs, func(ci ssa.CallInstruction) {
+			if cal := staticCallee(ci); cal != nil && cal.Blocks != nil && rec == nil {
+				eachCall(cal, func(c2 ssa.CallInstruction) {
+					if staticCallee(c2) == cal {
+						rec = cal
+					}
+				})
+			}
+		})
+	}
+	if rec == nil || len(rec.Params) == 0 {
+		c.Errorf("anchor: the recursive per-node step of RangeSearch does not resolve")
+		return
+	}
+	// field names are resolved by type, so that renaming them changes nothing
+	nodeT, _ := deref(rec.Params[0].Type()).Underlying().(*types.Struct)
+	if nodeT == nil {
+		c.Errorf("anchor: first parameter of %s is not a node", FuncName(rec))
+		return
+	}
+	fEntries, entryT := "", (*types.Struct)(nil)
+	fNum := ""
+	for i := 0; i < nodeT.NumFields(); i++ {
+		f := nodeT.Field(i)
+		switch t := f.Type().Underlying().(type) {
+		case *types.Array:
+			fEntries = f.Name()
+			entryT, _ = t.Elem().Underlying().(*types.Struct)
+		case *types.Basic:
+			if t.Info()&types.IsInteger != 0 {
+				fNum = f.Name()
+			}
+		}
+	}
+	fBox, fChild, fRec := "", "", ""
+	if entryT != nil {
+		for i := 0; i < entryT.NumFields(); i++ {
+			f := entryT.Field(i)
+			switch t := f.Type().Underlying().(type) {
+			case *types.Struct:
+				fBox = f.Name()
+			case *types.Pointer:
+				fChild = f.Name()
+			case *types.Basic:
+				if t.Info()&types.IsInteger != 0 {
+					fRec = f.Name()
+				}
+			}
+		}
+	}
+	if fEntries == "" || fNum == "" || fBox == "" || fChild == "" || fRec == "" {
+		c.Errorf("anchor: node/entry layout not recognised (entries=%q count=%q box=%q child=%q record=%q)", fEntries, fNum, fBox, fChild, fRec)
+		return
+	}
 	fn := FuncName(rec)
 	problem, undec := "", ""
 	models := 0
 	var fvs []k4val
 	for _, fv := range rec.FreeVars {
-		fvs = append(fvs, k4val{kind: 3, s: "fv:" + fv.Name()})
+		k := "fv:" + fv.Name()
+		if _, isBox := deref(deref(fv.Type())).Underlying().(*types.Struct); isBox {
+			k = "fv:box"
+		}
+		fvs = append(fvs, k4val{kind: 3, s: k})
+	}
+	recArgs := []k4val{{kind: 3, s: "$0"}}
+	for _, par := range rec.Params[1:] {
+		if _, isBox := par.Type().Underlying().(*types.Struct); isBox {
+			recArgs = append(recArgs, k4val{kind: 3, s: "fv:box"})
+		} else {
+			recArgs = append(recArgs, k4val{kind: 3, s: "fv:" + par.Name()})
+		}
 	}
 	for mask := 0; mask < 64; mask++ {
 		models++
-		m := &Model{Num: map[string]float64{"$0.numEntries": 3}, Bool: map[string]bool{}, Missing: map[string]bool{}}
+		m := &Model{Num: map[string]float64{"$0." + fNum: 3}, Bool: map[string]bool{}, Missing: map[string]bool{}}
 		it := &k4interp{p: c.P, m: m, mem: map[string]k4val{}}
 		var want []string
 		for i := 0; i < 3; i++ {
 			ov := mask&(1<<uint(i)) != 0
 			leaf := mask&(1<<uint(3+i)) != 0
-			m.Bool[fmt.Sprintf("rtree.overlap($0.entries[%d].box,fv:box)", i)] = ov
-			m.Bool[fmt.Sprintf("($0.entries[%d].child==nil)", i)] = leaf
-			m.Num[fmt.Sprintf("$0.entries[%d].recordID", i)] = float64(10 + i)
+			m.Bool[fmt.Sprintf("rtree.overlap($0.%s[%d].%s,fv:box)", fEntries, i, fBox)] = ov
+			m.Bool[fmt.Sprintf("($0.%s[%d].%s==nil)", fEntries, i, fChild)] = leaf
+			m.Num[fmt.Sprintf("$0.%s[%d].%s", fEntries, i, fRec)] = float64(10 + i)
 			if ov && leaf {
 				want = append(want, fmt.Sprintf("callback(%d)", 10+i))
 			}
 			if ov && !leaf {
-				want = append(want, fmt.Sprintf("recurse(entries[%d].child)", i))
+				want = append(want, fmt.Sprintf("recurse(%s[%d].%s)", fEntries, i, fChild))
 			}
 		}
 		it.opaqueCall = func(args []k4val) (string, bool) {
@@ -204,7 +276,7 @@ func runC11Visit(c *Ctx) {
 			it.calls = nil
 			it.mem = map[string]k4val{}
 			m.Missing = map[string]bool{}
-			_, err = it.call(rec, []k4val{{kind: 3, s: "$0"}}, fvs)
+			_, err = it.call(rec, recArgs, fvs)
 			if err == nil || len(m.Missing) == 0 {
 				break
 			}
@@ -229,8 +301,9 @@ func runC11Visit(c *Ctx) {
 		}
 		// the recursion closure is called through its cell: it appears as a static call key instead
 		for _, cl := range it.calls {
-			if strings.Contains(cl, "RangeSearch$1(") {
-				got = append(got, "recurse("+strings.TrimSuffix(strings.SplitN(strings.SplitN(cl, "(", 2)[1], "$0.", 2)[1], ")")+")")
+			if strings.HasPrefix(cl, extName(rec)+"(") {
+				a := splitTopLevel(strings.TrimSuffix(strings.TrimPrefix(cl, extName(rec)+"("), ")"))
+				got = append(got, "recurse("+strings.TrimPrefix(a[0], "$0.")+")")
 			}
 		}
 		if strings.Join(sortedCopy(got), " ") != strings.Join(sortedCopy(want), " ") {
@@ -247,15 +320,30 @@ func runC11Visit(c *Ctx) {
 		c.Errorf("anchor entriesQueue.Less does not resolve")
 		return
 	}
+	qEntries, qOrigin := "", ""
+	if qt, ok := deref(less.Params[0].Type()).Underlying().(*types.Struct); ok {
+		for i := 0; i < qt.NumFields(); i++ {
+			switch qt.Field(i).Type().Underlying().(type) {
+			case *types.Slice:
+				qEntries = qt.Field(i).Name()
+			case *types.Struct:
+				qOrigin = qt.Field(i).Name()
+			}
+		}
+	}
+	if qEntries == "" || qOrigin == "" {
+		c.Errorf("anchor: entriesQueue layout not recognised")
+		return
+	}
 	m := &Model{Num: map[string]float64{}, Bool: map[string]bool{}, Missing: map[string]bool{}}
 	bad := ""
 	for _, d := range [][2]float64{{1, 2}, {2, 1}, {3, 3}} {
 		it := &k4interp{p: c.P, m: m, mem: map[string]k4val{}}
-		it.mem["$0.entries"] = k4val{kind: 8, s: "Q", ln: 2, cp: 2}
+		it.mem["$0."+qEntries] = k4val{kind: 8, s: "Q", ln: 2, cp: 2}
 		it.mem["Q[0]"] = k4val{kind: 3, s: "E0"}
 		it.mem["Q[1]"] = k4val{kind: 3, s: "E1"}
-		m.Num["rtree.squaredEuclideanDistance(E0.box,$0.origin)"] = d[0]
-		m.Num["rtree.squaredEuclideanDistance(E1.box,$0.origin)"] = d[1]
+		m.Num["rtree.squaredEuclideanDistance(E0."+fBox+",$0."+qOrigin+")"] = d[0]
+		m.Num["rtree.squaredEuclideanDistance(E1."+fBox+",$0."+qOrigin+")"] = d[1]
 		res, err := it.call(less, []k4val{{kind: 3, s: "$0"}, {kind: 2, f: 0}, {kind: 2, f: 1}}, nil)
 		if err != nil || len(res) != 1 || res[0].kind != 1 {
 			bad = fmt.Sprintf("cannot interpret Less: %v %s", err, missingList(m))
